@@ -122,6 +122,7 @@ def run_mpi_cases(agg, binary, seed, P, a, b, opts, timeout, source, entries, ma
             with agg.lock:
                 agg.violations.append(dict(key='%s:hang' % (entry or 'mpi_job'), detail='job with %d ranks did not finish within the %ds watchdog twice; ranks still inside a call: %s' % (P, timeout, json.dumps({str(k): list(v) for k, v in open_calls.items()})),
                                            case=dict(ranks=P, case=failing, entry=entry, opts=opts), spec_text='seed=%s case=%s' % (seed, failing), observed=dict(open_calls={str(k): list(v) for k, v in open_calls.items()}, stacks=stacks), idx=failing, source=source, tags=['P=%d' % P], rerun=dict(kind='mpi', ranks=P, seed=seed, opts=opts or {}, idx=failing)))
+            return   # one reproduced hang per job stream is witness enough; every further case would cost two more watchdogs
         else:
             with agg.lock:
                 agg.violations.append(dict(key='%s:crash' % (entry or 'mpi_job'), detail='job with %d ranks died with status %s while ranks were inside %s' % (P, rc, json.dumps({str(k): list(v) for k, v in open_calls.items()})),
